@@ -294,5 +294,41 @@ INPUTS = [dict(a=np.array(a, dtype=np.int64), n=np.array(n, dtype=np.int64)) for
 }
 
 
+# ---- generated family: an if statement inside a loop body whose variables are needed only AFTER the loop (or also inside it) ----------
+# loop kind x (if/else assigning in both branches | if without else) x (y also read at the top of the body | only after the loop)
+# x (the if is the first | the last statement of the body); x is read and re-assigned inside the loop in every program.
+def _construct_in_loop():
+    out = {}
+    for loop in ("for", "while"):
+        for inner in ("ifelse", "ifonly"):
+            for yread in (False, True):
+                for first in (True, False):
+                    body = []
+                    if yread:
+                        body.append("x = x + y")
+                    ifs = ["c = x > 3", "if c:", "    y = x + 10", "    x = x + 1"]
+                    if inner == "ifelse":
+                        ifs += ["else:", "    y = x - 10", "    x = x + 2"]
+                    other = ["x = x * 2"]
+                    body += (ifs + other) if first else (other + ifs)
+                    if loop == "for":
+                        head = ["for i in range(n):"]
+                        tail = []
+                        pre = []
+                    else:
+                        pre = ["k = a * 0", "w = k < n"]
+                        head = ["while w:"]
+                        tail = ["k = k + 1", "w = k < n"]
+                    lines = ["x = a + 1", "y = a * 2"] + pre + head + ["    " + l for l in body + tail] + ["return x, y"]
+                    name = f"gen_{loop}_{inner}_{'yread' if yread else 'yafter'}_{'iffirst' if first else 'iflast'}"
+                    out[name] = ("\n@script(default_opset=op)\ndef f(a: INT64, n: INT64) -> Tuple[INT64, INT64]:\n"
+                                 + "".join("    " + l + "\n" for l in lines)
+                                 + "INPUTS = [dict(a=np.array(a, dtype=np.int64), n=np.array(n, dtype=np.int64)) for a in (-1, 2, 5) for n in (0, 1, 3)]\n")
+    return out
+
+
+PROGRAMS.update(_construct_in_loop())
+
+
 def sources():
     return {name: HEADER + body for name, body in PROGRAMS.items()}
